@@ -111,7 +111,7 @@ BAD_DATES = ["'2020-02-30'", "'2020-13-01'", "'2021-02-29'", "'2020-01-01 25:00'
              "'2020-0\u0661-01'", "'\u0662\u0660\u0662\u0660-01-01'", "''", "' '"]
 BAD_BOOLS = ["maybe", "2", "'tru'", "10", "oui", "-1", "truee", "''", "' '", "1.0", "01"]
 # literals that are no number at all, on a numeric column
-BAD_NUMS = ["'root'", "'abc'", "''", "' '", "0x10", "'1_000'", "1zb", "1x"]
+BAD_NUMS = ["'root'", "'abc'", "''", "' '", "0x10", "'1_000'", "1zb", "1x", "nan", "'NaN'", "'nan kb'", "NaNk"]
 NUM_COLS = ["size", "uid", "gid", "hardlinks", "inode", "length(name)", "size + 1"]
 NUM_OPS = ["=", "!=", ">", ">=", "<", "<=", "===", "!==", "eq", "ne", "gt", "lte"]
 DATE_OPS = ["=", "!=", ">", ">=", "<", "<=", "===", "!==", "eq", "ne", "gt", "lte"]
@@ -189,7 +189,7 @@ def ill_typed(draw):
     elif kind == "num":
         atom = "%s %s %s" % (draw(st.sampled_from(NUM_COLS)), draw(st.sampled_from(NUM_OPS)), draw(st.sampled_from(BAD_NUMS)))
     elif kind == "date":
-        col = draw(st.sampled_from(["modified", "accessed", "created"]))
+        col = draw(st.sampled_from(["modified", "accessed", "created", "exif_datetime"]))
         atom = "%s %s %s" % (col, draw(st.sampled_from(DATE_OPS)), draw(st.sampled_from(BAD_DATES)))
     else:
         col = draw(st.sampled_from(["is_dir", "is_file", "is_hidden", "suid", "other_exec", "is_empty", "is_source"]))
@@ -336,7 +336,7 @@ def enumerate_cases(tier):
         for op in ["=~", "~=", "regexp", "rx", "!=~", "!~="]:
             for lit in BAD_REGEX:
                 cases.append({"cls": "iv:regex", "argv": ["select name from . where %s %s %s" % (col, op, lit)], "expect2": True})
-    for col in ["modified", "accessed", "created"]:
+    for col in ["modified", "accessed", "created", "exif_datetime"]:
         for op in DATE_OPS:
             for lit in BAD_DATES:
                 cases.append({"cls": "iv:date", "argv": ["select name from . where %s %s %s" % (col, op, lit)], "expect2": True})
